@@ -31,7 +31,7 @@ EXHAUSTIVE = {
 }
 REACH = {
     t: ["ember_256", "ezsp_256", "unified_all", "undefined_ember", "undefined_ezsp",
-        "undefined_unified", "undefined_unified_8bit", "contract_path"]
+        "undefined_unified", "undefined_unified_8bit", "contract_path", "repeated_conversions_in_varied_order"]
     for t in ("quick", "thorough")
 }
 
@@ -94,6 +94,23 @@ def run_shard(desc) -> Acc:
             acc.hit("undefined_unified_8bit")
         acc.hit("undefined_unified")
         _one(acc, t, "sl_Status", t.sl_Status(v), {"family": "sl_Status", "value": v})
+    # The conversion is a function: what came before must not matter.  The same 8-bit codes again and again - one
+    # family hammered first, then the other; interleaved; in random order - each result judged like the first.
+    fams = (("EmberStatus", t.EmberStatus), ("EzspStatus", t.EzspStatus))
+    for first, second in (fams, fams[::-1]):
+        for _rep in range(5):
+            for v in range(256):
+                _one(acc, t, first[0], first[1](v), {"family": first[0], "value": v, "history": f"pass {_rep + 1} of 5 over this family"})
+        for v in range(256):
+            _one(acc, t, second[0], second[1](v), {"family": second[0], "value": v, "history": f"after 5 passes over {first[0]}"})
+    for _i in range(20000 if desc["n32"] >= 10000 else 4000):
+        fam, cls = fams[rnd.randrange(2)]
+        v = rnd.choice((rnd.randrange(256), 0x00, 0x72, 0xA1, 0x18, 0x93, 0x90, 0x91, 0xFF, 0xB4, 0x70))
+        _one(acc, t, fam, cls(v), {"family": fam, "value": v, "history": "random order, many repeats"})
+        if _i % 7 == 0:
+            m = rnd.choice(list(t.sl_Status.__members__.values()))
+            _one(acc, t, "sl_Status", m, {"family": "sl_Status", "value": int(m), "history": "random order, many repeats"})
+    acc.hit("repeated_conversions_in_varied_order")
     # the same postcondition through the icontract wrapper used by the other workloads
     acc2 = Acc()
     install_status_contract(acc2)
